@@ -75,8 +75,8 @@ func c15Shapes(g *c14Gen) []c14Req {
 // the admin multiplexer (GET /status, POST /shutdown).  Nothing listens on a port; requests go through ServeHTTP.
 
 type c15Server struct {
-	w     *c14World
-	eng   *c14Engine
+	w       *c14World
+	eng     *c14Engine
 	admin   *admin.Mux
 	signals chan bool // one value per value received from the admin multiplexer's done channel
 	steps   []J
@@ -119,6 +119,7 @@ func c15AdminRoute(path string) string {
 // RestServer.Start provides one; whether the channel received a value is the observable of the shutdown request.
 func (s *c15Server) send(target string, q c14Req) {
 	w := s.w
+	w.cur = s.eng
 	var abs J
 	var r c15Resp
 	signalled := false
@@ -297,6 +298,18 @@ func runC15(args []string) {
 		}
 		e.finish("malformed-walk")
 	}
+	// 3b. histories of replaced solution summaries (labels of earlier summaries asked for again), with refused POSTs
+	nhist := 10
+	if tier == "thorough" {
+		nhist = 150
+	}
+	g.summaryCanonical()
+	for i := 0; i < nhist; i++ {
+		g.summaryHistory(i, 3+g.p.intn(4), 0.4)
+	}
+	// 3c. huge bodies: malformed ones on every body-carrying write, and huge bodies where none is expected
+	g.largeBodies(tier, true)
+	g.bigElsewhere()
 	// 4. the whole server: admin multiplexer and the status handler on the API's "/"
 	nsrv := 12
 	if tier == "thorough" {
